@@ -504,6 +504,17 @@ impl<'a> Gen<'a> {
             if self.const_val(&a).is_some() && self.const_val(&b).is_some() {
                 b = self.var_leaf8();
             }
+            // a call is indeterminately sequenced with the other operand: if that operand reads
+            // anything a callee could write (globals, arrays, X, Y), both orders are legal C with
+            // different results.  The other operand is then a local or a constant.
+            let (mut a, mut b) = (a, b);
+            if !self.cfg.calls_everywhere {
+                if Self::has_call(&a) && self.reads_shared(&b) {
+                    b = self.local_or_const();
+                } else if Self::has_call(&b) && self.reads_shared(&a) {
+                    a = self.local_or_const();
+                }
+            }
             let e = Expr::Bin(op, Box::new(a), Box::new(b));
             return if self.rng.chance(1, 10) { Expr::Paren(Box::new(e)) } else { e };
         }
@@ -563,6 +574,36 @@ impl<'a> Gen<'a> {
             }
         }
         self.leaf8()
+    }
+
+    /// does `e` read anything a called function could modify (a global, an array, X, Y, memory
+    /// through a pointer)?  Call arguments are evaluated before the call and do not count.
+    fn reads_shared(&self, e: &Expr) -> bool {
+        match e {
+            Expr::Lv(LV::Var(v)) => matches!(self.p.vars[*v].scope, Scope::Global) && !self.is_const(*v),
+            Expr::Lv(_) => true,
+            Expr::Un(_, a) | Expr::Paren(a) => self.reads_shared(a),
+            Expr::Bin(_, a, b) | Expr::Comma(a, b) => self.reads_shared(a) || self.reads_shared(b),
+            Expr::Cond(a, b, c) => self.reads_shared(a) || self.reads_shared(b) || self.reads_shared(c),
+            Expr::Call(..) => false,
+            Expr::Assign(..) | Expr::OpAssign(..) | Expr::IncDec { .. } => true,
+            _ => false,
+        }
+    }
+
+    fn local_or_const(&mut self) -> Expr {
+        let l: Vec<VarId> = self
+            .fc
+            .locals
+            .iter()
+            .cloned()
+            .filter(|v| matches!(self.p.vars[*v].kind, VarKind::Scalar(Ty::U8)))
+            .collect();
+        if l.is_empty() || self.rng.chance(1, 3) {
+            self.const8()
+        } else {
+            Expr::Lv(LV::Var(*self.rng.pick(&l)))
+        }
     }
 
     fn call_expr(&mut self, need_value: bool) -> Option<Expr> {
@@ -1414,6 +1455,11 @@ impl<'a> Gen<'a> {
         if self.cfg.hw_dense && !self.hw.is_empty() && self.rng.chance(2, 5) {
             return self.hw_stmt();
         }
+        if self.cfg.calls_everywhere && !self.callable.is_empty() && self.rng.chance(1, 6) {
+            if let Some(s) = self.call_position_stmt() {
+                return s;
+            }
+        }
         let r = self.rng.below(100);
         if r < 70 {
             return self.assign_stmt();
@@ -1456,6 +1502,48 @@ impl<'a> Gen<'a> {
             return Stmt::Empty;
         }
         self.assign_stmt()
+    }
+
+    /// call-graph profile (C12): a call in one of the positions ordinary statements do not offer -
+    /// switch selector, initialiser, subscript, for header, loop condition
+    fn call_position_stmt(&mut self) -> Option<Stmt> {
+        self.st_reset();
+        let c = self.call_expr(true)?;
+        self.forget_xy();
+        let g = LV::Var(self.g8.iter().cloned().find(|v| !self.is_const(*v) && !self.is_protected(&LV::Var(*v)))?);
+        let set = |k: i32| Stmt::Expr(Expr::Assign(g.clone(), Box::new(Expr::Num(k))));
+        Some(match self.rng.below(5) {
+            0 => Stmt::Switch(c, vec![(vec![1], vec![set(1), Stmt::Break]), (vec![0, 7], vec![set(2), Stmt::Break])], Some(vec![set(3)])),
+            1 => {
+                let l = self.new_local(Ty::U8, "t");
+                Stmt::Block(vec![Stmt::Decl(l, Some(c)), Stmt::Expr(Expr::Assign(g.clone(), Box::new(Expr::Lv(LV::Var(l)))))])
+            }
+            2 => {
+                if self.arrs.is_empty() {
+                    return None;
+                }
+                let a = self.arrs[0];
+                let i = Expr::Bin(BinOp::And, Box::new(c), Box::new(Expr::Num(ARR_LEN as i32 - 1)));
+                Stmt::Expr(Expr::Assign(g.clone(), Box::new(Expr::Lv(LV::Idx(a, Box::new(i))))))
+            }
+            3 => {
+                let l = self.new_local(Ty::U8, "i");
+                let init = Expr::Assign(LV::Var(l), Box::new(Expr::Bin(BinOp::And, Box::new(c), Box::new(Expr::Num(3)))));
+                let cond = Expr::Bin(BinOp::Ne, Box::new(Expr::Lv(LV::Var(l))), Box::new(Expr::Num(0)));
+                let up = Expr::IncDec { lv: LV::Var(l), post: true, inc: false };
+                Stmt::Block(vec![Stmt::Decl(l, Some(Expr::Num(0))), Stmt::For(Some(init), Some(cond), Some(up), Box::new(Stmt::Block(vec![set(4)])))])
+            }
+            _ => {
+                let l = self.new_local(Ty::U8, "i");
+                let cond = Expr::Bin(
+                    BinOp::LAnd,
+                    Box::new(Expr::Bin(BinOp::Lt, Box::new(Expr::Lv(LV::Var(l))), Box::new(Expr::Num(3)))),
+                    Box::new(c),
+                );
+                let up = Stmt::Expr(Expr::IncDec { lv: LV::Var(l), post: true, inc: true });
+                Stmt::Block(vec![Stmt::Decl(l, Some(Expr::Num(0))), Stmt::While(cond, Box::new(Stmt::Block(vec![up])))])
+            }
+        })
     }
 
     pub fn hw_stmt(&mut self) -> Stmt {
